@@ -362,3 +362,289 @@ def replay(steps, chans, initwin, pktsize, scale=1):
     finally:
         w.stop()
     return res
+
+
+# ---------------------------------------------------------------------------
+# code -> spec: record naturally scheduled executions for ChannelTrace.tla
+# ---------------------------------------------------------------------------
+
+_SSTATE = {'open': 'open', 'eof_pending': 'eof_pending', 'eof': 'eof'}
+
+
+def record_natural(seed, chans, initwin, pktsize, nwrites=6, maxwrite=None,
+                   mode='mixed'):
+    """One real connection with len(chans) session channels.  The server
+    writes from one asyncio task per channel (random data type, size and
+    virtual delay, then EOF), the client runs one reader task per channel
+    that pauses / resumes at random, sessions pause themselves from inside
+    data_received now and then, and both byte streams are segmented and
+    stalled at random.  Returns dict(trace, l1, stats)."""
+    import asyncio
+    import random
+    from asyncssh import _verif
+    rng = random.Random(seed)
+    maxwrite = maxwrite or 2 * initwin + 3
+    w = World(chans, initwin, pktsize)
+    selfpause = {c: 0 for c in chans}     # self-pauses inside callbacks
+    want_selfpause = 'nopi' not in mode
+
+    # sessions that pause themselves from inside data_received
+    orig_start = w.start
+
+    def patched_data_hook(ch):
+        def hook():
+            if want_selfpause and rng.random() < 0.25 and \
+                    not w.cchan[ch]._recv_paused:
+                w.cchan[ch].pause_reading()
+                selfpause[ch] += 1
+        return hook
+
+    orig_start()
+    p = w.pair
+    p.auto()
+    # wrap the client sessions' data_received with the self-pause hook
+    for ch in chans:
+        sess = w.cchan[ch]._session
+        hook = patched_data_hook(ch)
+        orig = sess.data_received
+
+        def data_received(data, datatype, _orig=orig, _hook=hook):
+            _orig(data, datatype)
+            _hook()
+        sess.data_received = data_received
+    log = []
+    last_in = {'c': None, 's': None}
+    conn_side = {id(p.conn): 'c', id(p.sconn): 's'}
+
+    def chan_of_local(side, num):
+        for ch in chans:
+            c = w.cchan[ch] if side == 'c' else w.schan[ch]
+            if c._recv_chan == num:
+                return ch
+        return None
+
+    def wsnap(ch):
+        c = w.schan[ch]
+        return {'swin': c._send_window,
+                'sbufN': sum(len(d) for d, _ in c._send_buf),
+                'sstate': c._send_state}
+
+    def rsnap(ch):
+        c = w.cchan[ch]
+        return {'rwin': c._recv_window, 'rbufN': len(c._recv_buf),
+                'paused': bool(c._recv_paused), 'rstate': c._recv_state,
+                'dlen': [len(w.rx[ch][0]), len(w.rx[ch][1])],
+                'err': 'c' in p.lost}
+
+    def sink(name, f):
+        side = conn_side.get(id(f.get('conn')))
+        if side is None:
+            return
+        t = f.get('pkttype')
+        if t is None or t < 90:
+            return
+        if name == 'pkt_out':
+            pl = f['payload']
+            if t == MSG_CHANNEL_DATA:
+                rec = ['data', 0, int.from_bytes(pl[5:9], 'big')]
+            elif t == MSG_CHANNEL_EXTENDED_DATA:
+                rec = ['data', 1, int.from_bytes(pl[9:13], 'big')]
+            elif t == MSG_CHANNEL_EOF:
+                rec = ['eof', 0, 0]
+            elif t == MSG_CHANNEL_WINDOW_ADJUST:
+                rec = ['adjust', 0, int.from_bytes(pl[5:9], 'big')]
+            else:
+                rec = [f't{t}', 0, 0]
+            log.append(('out', side, rec, None))
+        elif name == 'pkt_in':
+            pl = f['payload']
+            ch = chan_of_local(side, int.from_bytes(pl[1:5], 'big'))
+            n = int.from_bytes(pl[5:9], 'big') if t == 93 else 0
+            last_in[side] = ch
+            log.append(('in', side, (t, ch, n, selfpause.get(ch, 0)), None))
+        elif name == 'pkt_done':
+            ch = last_in[side]
+            snap = {'sp': selfpause.get(ch, 0)}
+            if ch is not None:
+                snap['r' if side == 'c' else 'w'] = \
+                    rsnap(ch) if side == 'c' else wsnap(ch)
+            log.append(('done', side, t, snap))
+
+    _verif.set_sink(sink)
+    if 'whole' not in mode:
+        for tr in (p.ct, p.st):
+            tr.chunker = (lambda avail: rng.randint(1, max(1, avail))) \
+                if 'tiny' not in mode else (lambda avail: rng.randint(1, 9))
+    written = w.written
+    done_writing = {c: False for c in chans}
+
+    def app(kind, ch, fn, *args, extra=None):
+        sp0 = selfpause[ch]
+        rb0 = len(w.cchan[ch]._recv_buf)
+        log.append(('app_begin', kind, ch, None))
+        fn(*args)
+        snap = wsnap(ch) if kind in ('write', 'eof') else rsnap(ch)
+        log.append(('app_end', kind, ch,
+                    dict(extra or {}, sp=selfpause[ch] - sp0, rb0=rb0,
+                         snap=snap)))
+
+    async def writer(ch):
+        for _ in range(nwrites):
+            await asyncio.sleep(rng.choice([0, 0, 0.001, 0.003, 0.01]))
+            if p.lost:
+                return
+            dt = rng.choice([0, 0, 1])
+            n = rng.randint(1, maxwrite)
+            k0 = len(written[ch][dt])
+            data = bytes(unit_byte(ch, dt, k0 + i + 1) for i in range(n))
+            written[ch][dt] += data
+            fn = w.schan[ch].write if dt == 0 else w.schan[ch].write_stderr
+            app('write', ch, fn, data, extra={'dt': dt, 'n': n})
+        await asyncio.sleep(rng.choice([0, 0.002]))
+        if not p.lost:
+            w.eof_sent[ch] = True
+            app('eof', ch, w.schan[ch].write_eof)
+        done_writing[ch] = True
+
+    async def reader(ch):
+        c = w.cchan[ch]
+        for _ in range(400):
+            await asyncio.sleep(rng.choice([0.0005, 0.001, 0.002, 0.006]))
+            if p.lost:
+                return
+            if c._recv_paused:
+                if rng.random() < 0.7:
+                    app('resume', ch, c.resume_reading)
+            elif c._recv_state == 'open' and rng.random() < 0.3 and \
+                    'nopause' not in mode:
+                app('pause', ch, c.pause_reading)
+            if done_writing[ch] and 'EOF' in w.order[ch]:
+                return
+        # make sure everything is read in the end
+        if c._recv_paused:
+            app('resume', ch, c.resume_reading)
+
+    async def staller():
+        for _ in range(10):
+            await asyncio.sleep(rng.choice([0.0005, 0.002, 0.004]))
+            t = rng.choice([p.ct, p.st])
+            t.auto = not t.auto
+        p.ct.auto = p.st.auto = True
+
+    async def go():
+        tasks = [writer(ch) for ch in chans] + [reader(ch) for ch in chans]
+        if 'stall' in mode or mode == 'mixed':
+            tasks.append(staller())
+        await asyncio.gather(*tasks)
+
+    outcome = 'ok'
+    try:
+        p.run(go())
+        p.ct.auto = p.st.auto = True
+        p.loop.run_until_idle()
+        for ch in chans:                   # final drain
+            if w.cchan[ch]._recv_paused and 'c' not in p.lost:
+                p.call(lambda ch=ch: app('resume', ch,
+                                         w.cchan[ch].resume_reading))
+        p.loop.run_until_idle()
+    except Exception as exc:            # pylint: disable=broad-except
+        outcome = f'{type(exc).__name__}: {exc}'
+    _verif.set_sink(None)
+    # ---- raw log -> events ----
+    ev = []
+    cur_app = None
+    cur_in = {'c': None, 's': None}
+    stray = []
+    sent_tot = {c: 0 for c in chans}
+    adj_got = {c: 0 for c in chans}
+    win_bad = []
+    for i, (kind, a, b, c) in enumerate(log):
+        if kind == 'app_begin':
+            cur_app = [a, b, []]
+        elif kind == 'app_end':
+            k, ch, outs = cur_app
+            cur_app = None
+            e = {'e': k, 'ch': ch, 'out': outs}
+            e.update(c.pop('snap'))
+            if k == 'write':
+                e.update(dt=c['dt'], n=c['n'])
+            elif k == 'resume':
+                e.update(k=c['rb0'] - e['rbufN'], rp=bool(c['sp']))
+            ev.append(e)
+        elif kind == 'out':
+            if cur_app is not None:
+                cur_app[2].append(b)
+            elif cur_in[a] is not None:
+                cur_in[a][1].append(b)
+            else:
+                stray.append((a, b))
+        elif kind == 'in':
+            cur_in[a] = [b, []]
+        elif kind == 'done':
+            if cur_in[a] is None:
+                continue
+            (t, ch, n, sp0), outs = cur_in[a]
+            cur_in[a] = None
+            snap = c
+            if a == 'c' and t in (94, 95, 96):
+                e = {'e': 'dfwd', 't': 'eof' if t == 96 else 'data',
+                     'ch': ch, 'pi': snap['sp'] > sp0, 'out': outs}
+                e.update(snap['r'])
+                ev.append(e)
+            elif a == 's' and t == 93:
+                adj_got[ch] += n
+                e = {'e': 'dbwd', 'ch': ch, 'n': n, 'out': outs}
+                e.update(snap['w'])
+                ev.append(e)
+            else:
+                stray.append((a, t))
+        # C08 on the wire, in the order things happened
+        if kind in ('app_end', 'done') and ev:
+            e = ev[-1]
+            if e['e'] in ('write', 'eof', 'dbwd') and not e.get('_seen'):
+                e['_seen'] = True
+                for k_, _, n_ in e['out']:
+                    if k_ == 'data':
+                        sent_tot[e['ch']] += n_
+                        if n_ > pktsize:
+                            win_bad.append(f'C08 NeverExceedPktSize: packet '
+                                           f'of {n_} > {pktsize}')
+                if sent_tot[e['ch']] > initwin + adj_got[e['ch']]:
+                    win_bad.append(
+                        f'C08 NeverExceedPeerWindow: channel {e["ch"]} sent '
+                        f'{sent_tot[e["ch"]]} > granted '
+                        f'{initwin + adj_got[e["ch"]]}')
+    for e in ev:
+        e.pop('_seen', None)
+    l1 = list(win_bad[:3])
+    for ch in chans:
+        for dt in (0, 1):
+            got, want = bytes(w.rx[ch][dt]), bytes(written[ch][dt])
+            if not want.startswith(got):
+                l1.append(f'C07 DeliveredIsPrefix: channel {ch} dt {dt} '
+                          f'received {got.hex()} but {want.hex()} was written')
+        if 'EOF' in w.order[ch] and (w.order[ch][-1] != 'EOF' or
+                                     w.order[ch].count('EOF') > 1):
+            l1.append(f'C07 EOFLast: data after EOF on channel {ch}')
+    if p.lost:
+        l1.append(f'HonestNoError: connection lost: {p.lost}')
+    if outcome != 'ok':
+        l1.append(f'session failed: {outcome}')
+    for ch in chans:
+        for dt in (0, 1):
+            if bytes(w.rx[ch][dt]) != bytes(written[ch][dt]) and not l1:
+                l1.append(f'C07 AllDelivered: channel {ch} dt {dt}: '
+                          f'{len(w.rx[ch][dt])} of {len(written[ch][dt])} '
+                          f'bytes arrived after everything was drained')
+        if 'EOF' not in w.order[ch] and not l1:
+            l1.append(f'C07 EOFLast: EOF never delivered on channel {ch}')
+    exc = [str(c.get('exception') or c.get('message'))
+           for c in p.loop.exceptions]
+    w.stop()
+    return {'trace': {'ev': ev, 'seed': seed, 'mode': mode,
+                      'initwin': initwin, 'pktsize': pktsize,
+                      'chans': list(chans)},
+            'l1': l1, 'stray': stray, 'loop_exceptions': exc,
+            'npause': sum(1 for e in ev if e['e'] == 'pause') +
+            sum(selfpause.values()),
+            'nadj': sum(1 for e in ev if e['e'] == 'dbwd')}
